@@ -36,7 +36,9 @@ class XYCostFunction_Chi2(CostFunction_Chi2):
         """
         self._DATA_NAME = "y_data"
         self._MODEL_NAME = "y_model"
+        self._axes_to_use = axes_to_use
         if axes_to_use.lower() == "y":
+            self._COV_MAT_NAME = "y_total_cov_mat"
             self._COV_MAT_CHOLESKY_NAME = "y_total_cov_mat_cholesky"
             self._COV_MAT_QR_NAME = "y_total_cov_mat_qr"
             self._ERROR_NAME = "y_total_error"
@@ -53,6 +55,19 @@ class XYCostFunction_Chi2(CostFunction_Chi2):
             add_determinant_cost=add_determinant_cost,
             fast_math=fast_math,
         )
+
+    @property
+    def pointwise_version(self):
+        if self._cost_function_handle == self.chi2_covariance:
+            return type(self)(
+                errors_to_use="pointwise",
+                fallback_on_singular=not self._fail_on_no_matrix,
+                axes_to_use=self._axes_to_use,
+                add_constraint_cost=self._add_constraint_cost,
+                add_determinant_cost=self._add_determinant_cost,
+            )
+        else:
+            return None
 
 
 class XYCostFunction_NegLogLikelihood(CostFunction_NegLogLikelihood):
@@ -97,6 +112,7 @@ class XYCostFunction_GaussApproximation(CostFunction_GaussApproximation):
         """
         self._DATA_NAME = "y_data"
         self._MODEL_NAME = "y_model"
+        self._axes_to_use = axes_to_use
         if axes_to_use.lower() == "y":
             self._COV_MAT_NAME = "y_total_cov_mat"
             self._COV_MAT_CHOLESKY_NAME = "y_total_cov_mat_cholesky"
@@ -112,6 +128,18 @@ class XYCostFunction_GaussApproximation(CostFunction_GaussApproximation):
             add_constraint_cost=add_constraint_cost,
             add_determinant_cost=add_determinant_cost,
         )
+
+    @property
+    def pointwise_version(self):
+        if self._cost_function_handle == self.gaussian_approximation_covariance:
+            return type(self)(
+                errors_to_use="pointwise",
+                axes_to_use=self._axes_to_use,
+                add_constraint_cost=self._add_constraint_cost,
+                add_determinant_cost=self._add_determinant_cost_ga,
+            )
+        else:
+            return None
 
 
 STRING_TO_COST_FUNCTION = {
